@@ -144,6 +144,48 @@ def build_requests(ctx, decoy):
         for k in ("ext_general", "lol", "valid", "malformed", "bare_doctype"):
             serial += 1
             add(k, rng.randrange(10**9), serial, ["utf-8"], special=special)
+    # ---- mis-declared / undeclared encodings: decode_request has to GUESS, and may guess wrongly.  Whatever text comes out
+    # (the intended one, or a mis-decoded one that is not well-formed), a body that declares an entity must be rejected and
+    # inert; in particular nothing may look at the raw bytes again with another parser.
+    ENC = [("utf-16-bom", "utf-16", "utf-16", "utf-8"), ("utf-16le", "utf-16-le", "utf-16", "utf-8"),
+           ("utf-16be", "utf-16-be", "utf-16", "utf-16"), ("utf-32", "utf-32", "utf-32", "utf-8"),
+           ("utf-8-bom", "utf-8-sig", "utf-8", "iso-8859-1"), ("cp1252", "cp1252", "windows-1252", "utf-8")]
+    kinds = list(dict.fromkeys(X.HOSTILE_KINDS))
+    rot = 0
+    for k in kinds:
+        for label, codec, xmlname, wrong in ENC:
+            for ctmode in ("none", "wrong", "xmldecl"):
+                serial += 1
+                seed = rng.randrange(10**9)
+                methods = X.METHODS if not ctx.quick else [X.METHODS[rot % 5]]
+                rot += 1
+                for m in methods:
+                    decl = ("pi", "xml", 'version="1.0" encoding="%s"' % xmlname) if ctmode == "xmldecl" else None
+                    a = X.gen_attack(random.Random(seed), m, k, decoy, serial, force_decl=decl)
+                    if label == "cp1252":
+                        a = dict(a)
+                        a["after"] = [("comment", " caf\u00e9 ")] + list(a["after"])
+                    text = X.render(a)
+                    data = text.encode(codec)
+                    named = wrong if ctmode == "wrong" else None
+                    ctype = "text/xml; charset=%s" % named if named else "text/xml"
+                    names = ([named] if named else []) + ["utf-8", "iso8859-1"]
+                    dres = []
+                    for n_, code, s_ in decode_results(data, names, text):
+                        if code == 3 and s_ == "\ufeff" + text:
+                            code = 0          # a decoded byte-order mark in front of the text: expat skips it
+                        elif code == 3 and s_.encode("utf-8", "surrogatepass") in (text.encode("utf-16-le"), text.encode("utf-16-be")):
+                            # BOM-less UTF-16 of an ASCII text read as utf-8 / latin-1 gives the text with NULs interleaved;
+                            # pyexpat hands it to expat as bytes and expat auto-detects UTF-16: the (defused) parser sees
+                            # the intended document
+                            code = 0
+                        dres.append((n_, code, s_))
+                    idx = len(cases)
+                    path = "/u/cal/" if m in ("PROPFIND", "PROPPATCH", "REPORT") else "/u/n%d/" % idx
+                    mark = "c%d" % idx
+                    reqs.append(dict(method=m, path=path, user="u", body=data, ctype=ctype, mark=mark))
+                    cases.append(dict(idx=idx, mark=mark, method=m, path=path, kind=k, charset="%s/ct-%s" % (label, ctmode),
+                                      named=named, a=a, text=text, data=data, ctype=ctype, dres=dres, declares=True, seed=seed))
     return reqs, cases
 
 
@@ -246,7 +288,7 @@ def expected_tuple(c, res):
 
 def enc_in(c):
     res = "[" + ";".join("(%s, %d)" % (X.e_str(n), code) for n, code, _ in c["dres"]) + "]"
-    ct = "None" if c["named"] is None else "(Some %s)" % X.e_str(c["named"])
+    ct = "(@None (list N))" if c["named"] is None else "(Some %s)" % X.e_str(c["named"])
     return "(%s, %s, %s, %s, %s)" % (X.COQ_METHOD[c["method"]], X.e_attack(c["a"]), X.ROOTKIND[c["a"]["rootkind"]], ct, res)
 
 
@@ -328,7 +370,8 @@ def run(ctx):
                 "entities with file: and http: references, out-of-band chain, nested expansion depth<=12 fan-out<=10, quadratic "
                 "blow-up, unparsed entity, entity references in element text / attribute values; 5 kinds of DOCTYPE without "
                 "entity declaration; control: valid / malformed / undefined reference) x 5 methods x 3 charsets (+ charset "
-                "fall-back, unknown codec, no charset).  Distinct by (fingerprint of the body text, method, charset); "
+                "fall-back, unknown codec, no charset) + every hostile kind x 6 encodings (utf-16 BOM / LE / BE, utf-32, utf-8 BOM, cp1252) x "
+                "Content-Type {no charset, wrong charset, charset only in the XML declaration}.  Distinct by (fingerprint of the body text, method, charset); "
                 "non-trivial = the body has a DOCTYPE or is malformed")
     ctx.assumptions += [
         "expat + defusedxml are not modelled: theorems are 'rejection => inert' under the explicit hypothesis that a text in "
